@@ -279,3 +279,64 @@ Proof.
   - intros (x & Hx & He). apply String.eqb_eq in He. now subst.
   - intros H. exists k. split; [assumption|apply String.eqb_refl].
 Qed.
+
+(* ------------------------------------------------------------------ engine, with a predicate on visited nodes *)
+(* every node the loop visits satisfies any predicate that holds of the sinks and is closed
+   under "is a parent of" (reachability); the visit step may use it *)
+Section EngineReach.
+Variable P : Type.
+Variables St R Ou : Type.
+Variable visit : St -> nat -> node P -> list (string * Ou) -> res (St * R).
+Variable output : St -> R -> string -> res Ou.
+Variable h : list (node P).
+Variable Rch : nat -> Prop.
+Hypothesis Rch_parent : forall n nd p, Rch n -> nth_error h n = Some nd -> In p (parents nd) -> Rch p.
+Variable Inv : list (nat * R) -> St -> Prop.
+Hypothesis Hvisit : forall done st n nd inputs st' r,
+  Rch n -> Inv done st -> nth_error h n = Some nd -> lookupn n done = None ->
+  gather output st done (nins nd) = Ok (Ready inputs) ->
+  visit st n nd inputs = Ok (st', r) -> Inv ((n, r) :: done) st'.
+
+Lemma gather_push_parent : forall st done ins p, gather output st done ins = Ok (Push p) ->
+  In p (map (fun x => fst (snd x)) ins).
+Proof.
+  intros st done ins. induction ins as [|[iname [q oname]] ins IH]; simpl; intros p H; [discriminate|].
+  destruct (lookupn q done) as [r|].
+  - destruct (output st r oname) as [o|]; simpl in H; [|discriminate].
+    destruct (gather output st done ins) as [[q'|l]|] eqn:Hg; simpl in H; try discriminate.
+    injection H as <-. right. now apply IH.
+  - injection H as <-. now left.
+Qed.
+
+Lemma loop_inv_r : forall fuel todo done st done' st',
+  Forall Rch todo -> Inv done st -> loop visit output fuel h todo done st = Ok (done', st') -> Inv done' st'.
+Proof.
+  induction fuel as [|f IH]; intros todo done st done' st' HR HI H; simpl in H; [discriminate|].
+  destruct todo as [|n rest]; [injection H as <- <-; exact HI|].
+  inversion HR as [|? ? Hn HR']; subst.
+  destruct (lookupn n done) eqn:Hl; [eapply IH; eassumption|].
+  destruct (nth_error h n) as [nd|] eqn:Hnd; [|discriminate].
+  destruct (gather output st done (nins nd)) as [[p|inputs]|] eqn:Hg; try discriminate.
+  - eapply IH; [|eassumption|eassumption]. constructor; [|assumption].
+    eapply Rch_parent; [exact Hn|exact Hnd|]. unfold parents. eapply gather_push_parent; eassumption.
+  - destruct (visit st n nd inputs) as [[st1 r]|] eqn:Hv; [|discriminate].
+    eapply IH; [eassumption| |eassumption]. eapply Hvisit; eassumption.
+Qed.
+
+Lemma transform_inv_r : forall sinks st st' rs done,
+  Forall Rch sinks -> Inv [] st -> transform visit output h sinks st = Ok (st', rs, done) ->
+  Inv done st' /\ Forall2 (fun s r => lookupn s done = Some r) sinks rs.
+Proof.
+  intros sinks st st' rs done HR HI H. unfold transform in H.
+  destruct (loop visit output (engine_fuel h sinks) h (rev sinks) [] st) as [[d s]|] eqn:Hl; simpl in H; [|discriminate].
+  match type of H with bind ?m _ = _ => destruct m as [rs0|] eqn:Hm; simpl in H; [|discriminate] end.
+  injection H as <- <- <-.
+  split; [eapply loop_inv_r; [|eassumption|eassumption]; apply Forall_rev; assumption|].
+  clear Hl HR. revert rs0 Hm. induction sinks as [|x sinks IHs]; simpl; intros rs0 Hm.
+  - injection Hm as <-. constructor.
+  - destruct (lookupn x d) eqn:Hx; simpl in Hm; [|discriminate].
+    match type of Hm with bind ?m _ = _ => destruct m as [rs1|] eqn:Hm1; simpl in Hm; [|discriminate] end.
+    injection Hm as <-. constructor; [assumption|]. now apply IHs.
+Qed.
+
+End EngineReach.
